@@ -161,7 +161,7 @@ def run(tier):
             if res["diff"]:
                 rep.violation("unpack-escape", "unpacking a crafted image changed objects outside the unpack root: %s (forest %s, flags %s)"
                               % (res["diff"], json.dumps(f), flags), artefact=res["img"], data={"forest": f, "flags": flags, "diff": res["diff"]})
-            elif res["rc"] < 0 or res["rc"] in (124, 134, 139) or "AddressSanitizer" in res["stderr"]:
+            elif res["rc"] < 0 or res["rc"] in (124, 134, 139) or "ERROR: AddressSanitizer" in res["stderr"]:
                 rep.violation("unpack-crash", "rdsquashfs crashes/hangs on a crafted image (rc %d): %s" % (res["rc"], res["stderr"][-150:]),
                               artefact=res["img"], data={"forest": f, "flags": flags})
     # ---- handcrafted images beyond the model alphabet --------------------------------------------
@@ -188,7 +188,7 @@ def run(tier):
                 if res["diff"]:
                     rep.violation("unpack-escape", "handcrafted image #%d (flags %s, path %s) changed objects outside the unpack root: %s"
                                   % (k, flags, sub, res["diff"]), artefact=res["img"], data={"case": k, "flags": flags})
-                elif res["rc"] < 0 or res["rc"] in (124, 134, 139) or "AddressSanitizer" in res["stderr"]:
+                elif res["rc"] < 0 or res["rc"] in (124, 134, 139) or "ERROR: AddressSanitizer" in res["stderr"]:
                     rep.violation("unpack-crash", "rdsquashfs crashes/hangs on handcrafted image #%d (rc %d): %s" % (k, res["rc"], res["stderr"][-150:]),
                                   artefact=res["img"], data={"case": k})
                 shutil.rmtree(j, ignore_errors=True)
